@@ -187,7 +187,8 @@ class SymInt:
         return engine.cur().concretize(self.t)
 
     def __hash__(self):
-        return hash(engine.cur().concretize(self.t))
+        # hashing (dict / set keys) needs a concrete value: a handful of values are enumerated, the rest is truncated
+        return hash(engine.cur().concretize(self.t, limit=6))
 
     def __bool__(self):
         return engine.cur().branch(self.t != 0)
